@@ -411,6 +411,17 @@ def run(ctx):
     from . import c14 as _c14
     _core.run_proxied(ctx, _c14, 'R02x', ('M2e',))
 
+    # ---- R02aa (C17 P2/P4), R02ab (C10 R10h)
+    ctx.rule('R02aa', 'the lookup tables cached on a parsing state are reused from the parent only when no field they depend on '
+                      'changes: math opened inside math (`\\[ a \\hbox{if $x$ then} b \\]`) otherwise expects the OUTER closing '
+                      'delimiter, and the inner `$` is read as another opener (C17 P2, P4)', 4)
+    from . import c17 as _c17, c05 as _c05b
+    _c17.run(_c05b._filtered(_c05b._Sub(ctx, 'R02aa'), ('P2', 'P4')))
+    ctx.rule('R02ab', 'each argument is parsed in the state of the call updated by that argument\'s own delta, and the body in '
+                      'the call state updated by the body delta: an argument never inherits the state of the argument before '
+                      'it (C10 R10h)', 3)
+    _core.run_proxied(ctx, _c10, 'R02ab', ('R10h',))
+
     # ---- R02z: an opening and a closing delimiter come from two places of the specification
     ctx.rule('R02z', 'get_arg_parser_instance: a delimiter pair taken from the argument specification (r<c1><c2>, d<c1><c2>, '
                      'v<c1><c2>) reads its two characters from two different positions (locals substituted, per path): a pair '
